@@ -291,5 +291,5 @@ func TestC04(t *testing.T) {
 	}
 	r.CheckKnown(parts)
 	r.Exhaustive("enum-faults", 0, c04Enum)
-	r.Rapid("histories", r.N(12000, 200000), c04Prop)
+	r.Rapid("histories", r.N(12000, 800000), c04Prop)
 }
